@@ -3,7 +3,7 @@
    definitions at Qops on states captured from the implementation. *)
 From Coq Require Import Reals List Arith Lia Lra.
 From TLV Require Import Base.Shape Base.PyList Base.Tensor Base.Ops Base.RSum Model.Descent
-  Proofs.DescentProofs Proofs.DescentProofsHals Proofs.DescentProofsLink Proofs.DescentProofsOrth Proofs.DescentProofsNorm Proofs.DescentProofsNN.
+  Proofs.DescentProofs Proofs.DescentProofsHals Proofs.DescentProofsLink Proofs.DescentProofsOrth Proofs.DescentProofsNorm Proofs.DescentProofsNN Proofs.DescentProofsReg.
 Import ListNotations.
 Open Scope R_scope.
 
@@ -219,6 +219,27 @@ Theorem C07_parafac2_projection_descent_partial : forall (J R' K : nat) (Pold Pn
 Proof. exact parafac2_projection_descent_partial. Qed.
 Print Assumptions C07_parafac2_projection_descent_partial.
 
+(* ridge ALS of the CP regressor (scalar responses).  The prediction <X_s, [[w; W..]]> is linear in the factor being updated,
+   with the MTTKRP of the sample as coefficients (all orders): the block's design matrix consists of flattened MTTKRPs ... *)
+Theorem C07_cp_inner_linear : forall (X : tensor R) (w : list R) (facs : list (list (list R))) (k rank : nat) (A : list (list R)),
+  (k < length (shape X))%nat -> (k < length facs)%nat ->
+  cp_inner Rops X w (set_nth k A facs) rank
+  = rsum (nth k (shape X) 0%nat) (fun i => rsum rank (fun r => mget Rops A i r * cp_mttkrp Rops X w facs k i r)).
+Proof. exact cp_inner_linear. Qed.
+Print Assumptions C07_cp_inner_linear.
+
+(* ... hence a factor satisfying the block's normal equations (what tl.solve(phi'phi + reg I, phi'y) certifies) minimises
+   ||y - predictions||^2 + reg ||W_k||_F^2 over ALL matrices, for every number of samples, order, rank >= 1 and reg >= 0 *)
+Theorem C07_cpreg_block_minimises : forall (Xsl : list (tensor R)) (ysl : list R) (sh : list nat) (w : list R) (facs : list (list (list R)))
+  (k rank : nat) (reg : R) (A Z : list (list R)),
+  (forall X : tensor R, In X Xsl -> shape X = sh) -> (k < length sh)%nat -> (k < length facs)%nat -> (0 < rank)%nat -> 0 <= reg ->
+  (forall i r : nat, (i < nth k sh 0)%nat -> (r < rank)%nat ->
+     cpreg_normal_lhs Rops Xsl ysl w facs k rank A i r = reg * mget Rops A i r) ->
+  cpreg_obj Rops Xsl ysl w (set_nth k A facs) k (nth k sh 0%nat) rank reg
+  <= cpreg_obj Rops Xsl ysl w (set_nth k Z facs) k (nth k sh 0%nat) rank reg.
+Proof. exact cpreg_block_minimises_l. Qed.
+Print Assumptions C07_cpreg_block_minimises.
+
 (* ---------- non-vacuity: the hypotheses of the theorems above are satisfiable (and the descent can be strict) ---------- *)
 Example C07_cp_nonvacuous :
   let X := mk [2;2]%nat [1;2;3;4] in let w := [1] in let facs := [[[1];[1]]; [[1];[2]]] in
@@ -273,7 +294,6 @@ Proof.
 Qed.
 
 (* orthonormal columns / Ky Fan / Procrustes hypotheses are satisfiable: U = first unit vector of R^2, Y = X = (1, 0)' *)
-Definition e1 : fmat := fun i j => match i, j with O, O => 1 | _, _ => 0 end.
 Example C07_orth_nonvacuous :
   orthonormal 2 1 e1 /\
   (forall W : fmat, orthonormal 2 1 W -> frob2 1 1 (mmul 2 (mT W) e1) <= frob2 1 1 (mmul 2 (mT e1) e1)) /\
@@ -304,4 +324,13 @@ Example C07_nn_sweep_nonvacuous :
 Proof.
   cbv zeta. split; [|exact I]. split; [simpl; lia|]. split; [simpl; lia|].
   intros i r Hi Hr. simpl in Hi. assert (r = 0%nat) by lia; subst r. destruct i as [|[|i]]; [| |lia]; vm_compute; lra.
+Qed.
+
+(* one sample X = [1;2], response 5, reg 0, W = ([3]) on the single mode of size 2 ... the normal equations are satisfiable *)
+Example C07_cpreg_nonvacuous :
+  let Xs := [mk [2]%nat [1;2]] in let A := [[1];[2]] in
+  forall i r : nat, (i < 2)%nat -> (r < 1)%nat ->
+  cpreg_normal_lhs Rops Xs [5] [1] [[[0];[0]]] 0 1 A i r = 0 * mget Rops A i r.
+Proof.
+  cbv zeta. intros i r Hi Hr. assert (r = 0%nat) by lia; subst r. destruct i as [|[|i]]; [| |lia]; vm_compute; ring.
 Qed.
